@@ -6,16 +6,18 @@ prop("C03", pkg="c03",
           "per type (boundary-heavy integers and floats incl. -0/NaN payloads/Inf, nil vs empty, repeated fields of 0..40 elements and 8 % beyond 40 (cheap element types up to 2500, thorough 5000) plus a sub-check whose values all carry a repeated field of 1001..2500 (thorough 5000) elements), "
           "each marshalled by value or (25 %) by pointer. One evaluation = one (type, value, by-pointer) case through Marshal, Size, Unmarshal, Marshal again. "
           "Non-trivial = the built value is not the zero value of its type; distinct = FNV-64 of (type descriptor JSON, value recipe JSON, by-pointer). "
-          "Inputs of classes listed as known findings are avoided by construction or their specific difference is tolerated; both are counted in excluded_known.",
+          "All nine defect classes this check found (KF-C03-001..009) are repaired in /repo (59a4758, 4183846, 63d287d, ede0efc, f520591, 4eb59c8, 4b53871, 8ad6b3b, d34f12d): "
+          "no generator avoidance or comparer tolerance is active, the whole domain is generated and excluded_known is empty; a class listed as 'known' again would be avoided / tolerated and counted there.",
      quick=dict(shards=16, scale=1, timeout=900),
      thorough=dict(shards=16, scale=12, timeout=3000),
      technique="property-based testing (pgregory.net/rapid): generated Go types (reflect.StructOf + static corpus) x generated values, round-trip / size / determinism oracle, "
                "journal-supervised shards",
      level_text="Exploration: every generated (type, value) satisfied Unmarshal(Marshal(v)) == v up to nil-versus-empty slices/maps (floats by bit pattern), "
                 "Size(v) == len(Marshal(v)), nil Marshal error for types without user methods, and byte-identical repeated Marshal for values without maps "
-                "(equal length and equal decoded value with maps); a counterexample is shrunk by rapid and saved as a replay file.",
+                "(equal length and equal decoded value with maps); a counterexample is shrunk (rapid + structural minimiser) and saved as a replay file. "
+                "The witnesses of the nine repaired defect classes run as regression cases in every run (a failing one is a VIOLATION).",
      level_note="Trusted base: the reflection-based comparer and value builder in harness/pgen, reflect.StructOf, the Go toolchain. Nothing is claimed beyond the sampled types/values; "
-                "classes listed in known_findings.json are excluded from the search (counts in excluded_known) and reported by their witnesses.",
+                "every class of known_findings.json for this property is 'fixed' (repaired by the commits named there), so nothing is excluded from the search.",
      assumptions=["nil pointers are not generated as elements of repeated fields ([]*T) and inner pointers of **T are non-nil when the outer one is (no protobuf representation)",
                   "pointers to slice-kinded types (*[]byte, *RawMessage) are outside the domain (not produced by any Go protobuf binding; the struct codec misreads them as repeated fields)",
                   "`rep` is only put on slice and map fields; field numbers within one struct are distinct; map keys are bool/integer/string/byte-array/struct-of-those (no floats)",
